@@ -1021,6 +1021,21 @@ func runReaders(c *core.Case) {
 	if r.Bool() && len(b) >= 4 {
 		copy(b, [][]byte{{0x7f, 0xff, 0xff, 0xff}, {0xff, 0xff, 0xff, 0xff}, {0x80, 0x01, 0x00, 0x01}, {0xff, 0xff, 0xff, 0x7f}}[r.Intn(4)])
 	}
+	// every fourth case: a varint that denotes 2^64 or more (ten bytes whose last is above 1, or
+	// more than ten bytes): no integer, length or size of the compact protocol
+	overflow := c.Index%4 == 3
+	if overflow {
+		v := make([]byte, 9, 40)
+		for i := range v {
+			v[i] = 0x80 | byte(r.Intn(128))
+		}
+		if r.Bool() {
+			v = append(v, byte(r.Range(2, 0x7f)))
+		} else {
+			v = append(v, 0x80|byte(r.Intn(128)), byte(r.Intn(2)))
+		}
+		b = append(v, r.Bytes(r.Intn(12))...)
+	}
 	methods := []string{"ReadBool", "ReadInt8", "ReadInt16", "ReadInt32", "ReadInt64", "ReadFloat64", "ReadBytes", "ReadString", "ReadLength", "ReadMessage", "ReadField", "ReadList", "ReadSet", "ReadMap"}
 	for _, p := range protocols {
 		for _, m := range methods {
@@ -1043,6 +1058,10 @@ func runReaders(c *core.Case) {
 			}
 			err, _ := res[1].Interface().(error)
 			consumed := len(b) - br.Len()
+			if overflow && p.compact && err == nil && (m == "ReadInt64" || m == "ReadInt32" || m == "ReadInt16" || m == "ReadLength" || m == "ReadBytes" || m == "ReadString") {
+				c.Violation("reader|"+p.name+"|"+m, "varint-overflow-accepted", fmt.Sprintf("%s.%s on %x, which starts with a varint of more than 64 bits, succeeds (returns %v)", p.name, m, b, res[0].Interface()), w)
+				continue
+			}
 			if err == nil {
 				// a successful read cannot have needed more than the input holds
 				switch v := res[0].Interface().(type) {
@@ -1086,7 +1105,7 @@ func runReaders(c *core.Case) {
 func init() {
 	core.Register(&core.Monitor{
 		Prop:    "C08",
-		Rule:    "prefixes (struct targets, and every third case a bare list/set/map/string/number/pointer target): every prefix (all of them up to 400 bytes, 200 evenly spaced beyond) of a specification-conformant encoding of a generated value, both protocols: no panic, an error, io.EOF only for the empty input and an error that Is io.ErrUnexpectedEOF otherwise; the whole encoding decodes to the value; with 1-4 bytes appended Unmarshal reports an error; a bare list/set/map is also decoded into a target with other element types (the elements are skipped): accepted in full, unexpected-EOF for every prefix. unknown-fields: fields with undeclared ids (negative, below/above/between the declared ones, at 63/64/65/127/128/129/32767) holding values of every thrift type incl. nested lists, sets, maps and structs are inserted into every struct level of the encoding: the decoded value is unchanged (strict and non-strict). required: the encoding with one required field removed yields *MissingField naming that field; an 8-step history of failing and succeeding decodes of one type gives each step the outcome it has in isolation; one field re-typed (another kind, or the same collection kind with other element types) yields *TypeMismatch from a strict Decoder (fresh, or made strict and then Reset onto the input), also when the field belongs to a struct nested in map values, list elements or other structs; a non-strict one returns no error, leaves that field zero and decodes every other field as before. mutated / random: bit flips, byte substitutions, deletions, huge big-endian and varint sizes spliced into valid encodings, and random bytes biased to header values: no panic; bytes allocated (runtime.MemStats.TotalAlloc around the second and later calls for a type) within 1 MiB (64 KiB of preallocation per nesting level of the decoder, with map overhead) + 4 x len(input) x (largest element size of the target type incl. one bit per id of a struct's id range + 64). size-bombs (also in undeclared fields and undeclared nested structs, with fixed-width elements whose total size overflows 32 bits): list, set, map, string and binary headers announcing 2^16 .. 2^32-1 elements followed by 0-23 bytes, or by slightly more real elements than the decoder preallocates: rejected within the same allocation budget. readers: every Reader method of both protocols on short arbitrary inputs: no panic, <= 256 KiB allocated, no negative sizes, fixed-width reads fail on short input.",
+		Rule:    "prefixes (struct targets, and every third case a bare list/set/map/string/number/pointer target): every prefix (all of them up to 400 bytes, 200 evenly spaced beyond) of a specification-conformant encoding of a generated value, both protocols: no panic, an error, io.EOF only for the empty input and an error that Is io.ErrUnexpectedEOF otherwise; the whole encoding decodes to the value; with 1-4 bytes appended Unmarshal reports an error; a bare list/set/map is also decoded into a target with other element types (the elements are skipped): accepted in full, unexpected-EOF for every prefix. unknown-fields: fields with undeclared ids (negative, below/above/between the declared ones, at 63/64/65/127/128/129/32767) holding values of every thrift type incl. nested lists, sets, maps and structs are inserted into every struct level of the encoding: the decoded value is unchanged (strict and non-strict). required: the encoding with one required field removed yields *MissingField naming that field; an 8-step history of failing and succeeding decodes of one type gives each step the outcome it has in isolation; one field re-typed (another kind, or the same collection kind with other element types) yields *TypeMismatch from a strict Decoder (fresh, or made strict and then Reset onto the input), also when the field belongs to a struct nested in map values, list elements or other structs; a non-strict one returns no error, leaves that field zero and decodes every other field as before. mutated / random: bit flips, byte substitutions, deletions, huge big-endian and varint sizes spliced into valid encodings, and random bytes biased to header values: no panic; bytes allocated (runtime.MemStats.TotalAlloc around the second and later calls for a type) within 1 MiB (64 KiB of preallocation per nesting level of the decoder, with map overhead) + 4 x len(input) x (largest element size of the target type incl. one bit per id of a struct's id range + 64). size-bombs (also in undeclared fields and undeclared nested structs, with fixed-width elements whose total size overflows 32 bits): list, set, map, string and binary headers announcing 2^16 .. 2^32-1 elements followed by 0-23 bytes, or by slightly more real elements than the decoder preallocates: rejected within the same allocation budget. readers: every Reader method of both protocols on short arbitrary inputs (every fourth one starting with a varint of more than 64 bits, which the compact integer, length, string and binary reads must reject): no panic, <= 256 KiB allocated, no negative sizes, fixed-width reads fail on short input.",
 		Trusted: []string{"harness/gen/tspec encoders for the valid encodings", "runtime.MemStats.TotalAlloc as the allocation meter (single goroutine)", "errors.Is(err, io.ErrUnexpectedEOF) as the 'unexpected-EOF class'"},
 		Subs: []core.Sub{
 			{Name: "prefixes", N: core.Const(1500, 60000), Run: runPrefixes},
